@@ -76,6 +76,22 @@ Theorem C02_set_payload_af_only : forall l d, Iso.wf_lpkt l -> Iso.afc (Iso.lh l
 Proof. exact set_payload_af_only. Qed.
 Print Assumptions C02_set_payload_af_only.
 
+(* ---- SetAdaptationFieldControl: the adaptation field is created when the control bits gain the field
+        (payload-only packet -> 10: field of length 183, flags 0, all stuffing, no payload;
+                            -> 11: length 182, flags 0, stuffing, ONE payload byte left, which is 0xFF:
+         the old payload is destroyed in both cases), and nothing happens when control is already 11 ---- *)
+Theorem C02_set_afc_creates : forall h pay, let l := Iso.mkLpkt h Iso.NoAF pay in Iso.wf_lpkt l ->
+  SetAdaptationFieldControl (Iso.ser_pkt l) 2 =
+    (Iso.ser_pkt (Iso.mkLpkt (Iso.with_afc h 2) (Iso.AF Iso.laf0 (repeatN 255 182)) []), None) /\
+  SetAdaptationFieldControl (Iso.ser_pkt l) 3 =
+    (Iso.ser_pkt (Iso.mkLpkt (Iso.with_afc h 3) (Iso.AF Iso.laf0 (repeatN 255 181)) [255]), None).
+Proof. exact set_afc_creates. Qed.
+Print Assumptions C02_set_afc_creates.
+Theorem C02_set_afc3_noop : forall p, is_pkt p -> Iso.afc (Iso.hdr_of p) = 3 -> AFP.Length p <> 183 ->
+  SetAdaptationFieldControl p 3 = (p, None).
+Proof. exact set_afc3_noop. Qed.
+Print Assumptions C02_set_afc3_noop.
+
 (* ---- creation helpers ---- *)
 (* the first min(n,184) payload bytes are the requested ones (for n < 2 the rest of the payload is
    00 7f 00..: WithContinuousAF writes byte 5 although no adaptation field is flagged, see findings) *)
